@@ -104,7 +104,68 @@ def check_case(args):
                        if name == 'tags' and copier == 'cast' and len(edit_names) == 2 else [])
 
 
+def deepcopy_with_shared_case(_=None):
+  """fdl.deepcopy_with(cfg, name=new) where the current value of `name` (a Buildable, list, dict,
+  tagged sub-config) is also reachable from elsewhere in cfg: the result shares no mutable object
+  with the original, and equals deepcopy-then-assign."""
+  import copy
+  from fiddle import experimental  # noqa: F401  pylint: disable=unused-import
+  viols = []
+  def bad(what, name):
+    viols.append(dict(config=name, copier='deepcopy_with', edits=[], what=what, sig='deepcopy_with-shared',
+                      store=name, op='', scenario='deepcopy_with-shared'))
+  def shared_config():
+    tok = fdl.Config(pool.fb, 100, [1, 2])
+    enc = fdl.Config(pool.fk, tok, deep={'t': tok})
+    return fdl.Config(pool.fk2, tok, enc), 'x'
+  def shared_list():
+    l = [1, [2]]
+    return fdl.Config(pool.fk2, l, [l], also=(l,)), 'x'
+  def shared_dict():
+    d = {'k': [0]}
+    return fdl.Partial(pool.fk2, d, fdl.Config(pool.fb, d)), 'x'
+  def shared_kwarg():
+    sub = fdl.Config(pool.fb, [3])
+    return fdl.Config(pool.fk, 1, extra=sub, holder=[sub]), 'extra'
+  n = 0
+  for mk in (shared_config, shared_list, shared_dict, shared_kwarg):
+    n += 1
+    name = mk.__name__
+    orig, arg = mk()
+    c0 = canon.canon(orig, with_history=True)
+    try:
+      cp = fdl.deepcopy_with(orig, **{arg: 'replaced'})
+    except Exception as e:   # pylint: disable=broad-except
+      bad(f'deepcopy_with raised {type(e).__name__}: {str(e)[:100]}', name)
+      continue
+    if canon.canon(orig, with_history=True) != c0:
+      bad('deepcopy_with modified the original', name)
+    ref = copy.deepcopy(orig)
+    setattr(ref, arg, 'replaced')
+    if canon.canon(cp) != canon.canon(ref):
+      bad('deepcopy_with(cfg, name=v) differs from deepcopy followed by the assignment', name)
+    ids_o, _ = canon.mutable_ids(orig)
+    ids_c, _ = canon.mutable_ids(cp)
+    shared = set(ids_o) & set(ids_c)
+    if shared:
+      bad(f'the argument replaced by deepcopy_with is also referenced elsewhere in the configuration; the copy '
+          f'shares mutable objects with the original: {sorted(ids_o[i] for i in shared)[:4]}', name)
+    for t in all_buildables(cp):
+      for en, ed in pool.edits():
+        try:
+          ed(t)
+        except Exception:   # pylint: disable=broad-except
+          pass
+    if canon.canon(orig, with_history=True) != c0:
+      bad('editing the deepcopy_with copy changed what the original reports', name)
+  return n, n, viols, [dict(scenario='deepcopy_with replacing an argument whose value is shared elsewhere', cases=n)]
+
+
 def replay(case):
+  if case.get('scenario') == 'deepcopy_with-shared':
+    r = deepcopy_with_shared_case()
+    m = [v for v in r[2] if v['store'] == case.get('store')]
+    return m[0]['what'] if m else None
   r = check_case((case['config'], case['copier'], tuple(case['edits'])))
   return r[2][0]['what'] if r[2] else None
 
@@ -117,6 +178,7 @@ def run(tier='quick', seed=0, nproc=16):
     seqs += list(itertools.permutations(enames, 3))
   jobs = [(n, c, s) for n in names for c in list(DEEP) + list(SHALLOW) for s in seqs]
   res = common.pmap(check_case, gen.shuffled(jobs), nproc)
+  res.append(common.guard(deepcopy_with_shared_case))
   return common.merge(
       res, 'layerb.prop_C07',
       rule='every configuration of the pool (positional/keyword/**kwargs arguments, tags incl. '
